@@ -18,7 +18,7 @@ tvars == <<vars, l>>
 
 AllFaults == {"connect", "handshake", "close", "upgrade"}
 
-TraceInit == Init /\ l = 0 /\ cfg = [cap |-> FALSE, maxIdle |-> 0, it |-> 0, alive |-> TRUE]
+TraceInit == Init /\ l = 0 /\ cfg = [cap |-> FALSE, maxIdle |-> 0, it |-> 0, alive |-> TRUE, nopool |-> FALSE]
 
 \* the event of the model step agrees with the recorded action and result
 EvMatch(e, m) ==
@@ -50,8 +50,9 @@ ObsMatch(o, m) ==
                                /\ m.conn[c].up = o.conn[c].up
 
 \* a fresh pool with the recorded configuration (the primed copy of Pool!Init)
+NoPoolOf(e) == "noPool" \in DOMAIN e.cfg /\ e.cfg.noPool
 ResetStep(e) ==
-  /\ cfg' = [cap |-> e.cfg.cap, maxIdle |-> e.cfg.maxIdle, it |-> e.cfg.idleTimeout, alive |-> TRUE]
+  /\ cfg' = [cap |-> e.cfg.cap, maxIdle |-> e.cfg.maxIdle, it |-> e.cfg.idleTimeout, alive |-> ~NoPoolOf(e), nopool |-> NoPoolOf(e)]
   /\ connecting' = {}
   /\ waiting' = [o \in Origins |-> <<>>]
   /\ idle' = [o \in Origins |-> <<>>]
